@@ -120,4 +120,40 @@ theorem unbalanced_argument_not_compositional :
     have h2 : seq (toOut (seg.eval env)) (subst env " ${B}".toList) = .ok "{ ".toList := by decide
     rw [h1, h2]; decide
 
+/-! ### The tail of the greedy match (round 6; seed C08-8)
+
+The regexp's `.*` runs to the **last** `}` of the line, `DefaultReplacementAppliedFunc` cuts the match at the first
+balanced one and must give the rest (`rest`) a substitution pass of its own — whatever it holds, also when it holds no
+further `${` (an escape `$$` or an unbraced `$NAME` before a later `}`). -/
+
+/-- after an operator substitution the remaining text (any text that does not start with a name character, in
+    particular text with `$$` / `$NAME` and later closing braces on the same line) is interpolated by a pass of its
+    own and appended: nothing of it is copied verbatim, nothing is glued to the value and expanded again -/
+theorem subst_op_then_tail (env : Env) (n : Str) (o : Op) (arg : List Seg) (X : Str)
+    (hn : validName n = true) (harg : wfL true arg = true) (hX : noNameHead X = true) :
+    subst env ((Seg.op n o arg).render ++ X) = seq (subst env (Seg.op n o arg).render) (subst env X) := by
+  have hwf : WF [Seg.op n o arg] = true := by simp [WF, wfL, Seg.wf, hn, harg]
+  have h1 := subst_render_append env [Seg.op n o arg] X hwf hX
+  have h2 := subst_render env [Seg.op n o arg] hwf
+  rw [renderL, renderL, List.append_nil] at h1 h2
+  rw [h1, h2]
+
+/-- `${A:-x} $$ }` with `A` unset is `x $ }`: the escape in the tail is unescaped although no `${` follows -/
+theorem tail_escape_is_unescaped : subst (fun _ => none) "${A:-x} $$ }".toList = .ok "x $ }".toList := by
+  have := subst_op_then_tail (fun _ => none) ['A'] .colonDash [.lit ['x']] " $$ }".toList (by decide) (by decide) (by decide)
+  have h1 : subst (fun _ => none) (Seg.op ['A'] .colonDash [.lit ['x']]).render = .ok ['x'] := by decide
+  have h2 : subst (fun _ => none) " $$ }".toList = .ok " $ }".toList := by decide
+  rw [show "${A:-x} $$ }".toList = (Seg.op ['A'] .colonDash [.lit ['x']]).render ++ " $$ }".toList from by decide, this, h1, h2]
+  decide
+
+/-- `${A:-x} $B }` with `B = b`: the unbraced variable in the tail is substituted -/
+theorem tail_variable_is_substituted :
+    subst (fun k => if k = ['B'] then some ['b'] else none) "${A:-x} $B }".toList = .ok "x b }".toList := by
+  have := subst_op_then_tail (fun k => if k = ['B'] then some ['b'] else none) ['A'] .colonDash [.lit ['x']] " $B }".toList
+    (by decide) (by decide) (by decide)
+  have h1 : subst (fun k => if k = ['B'] then some ['b'] else none) (Seg.op ['A'] .colonDash [.lit ['x']]).render = .ok ['x'] := by decide
+  have h2 : subst (fun k => if k = ['B'] then some ['b'] else none) " $B }".toList = .ok " b }".toList := by decide
+  rw [show "${A:-x} $B }".toList = (Seg.op ['A'] .colonDash [.lit ['x']]).render ++ " $B }".toList from by decide, this, h1, h2]
+  decide
+
 end CV.Template
